@@ -39,6 +39,9 @@ type StressCase struct {
 
 	keysShared int
 	nOps       int
+	cipher     string
+	sharedGets int // Get/DecodeStream operations issued by >= 2 goroutines
+	errClasses []string
 }
 
 const (
@@ -51,10 +54,11 @@ const (
 	opOwnFile
 	opDecodeB          // Decode as the second Go type (*ViewB)
 	opDecodeExclusiveB // DecodeExclusive as the second Go type
+	opFailingGet       // not an operation of the lists: a phase of failing Gets on the hand-written bad file
 	nOpKinds
 )
 
-var opKindNames = []string{"Get", "DecodeStream", "Decode", "DecodeExclusive", "StoreOrLoadPair", "predefined-CMap", "own-Writer+Reader", "Decode-ViewB", "DecodeExclusive-ViewB"}
+var opKindNames = []string{"Get", "DecodeStream", "Decode", "DecodeExclusive", "StoreOrLoadPair", "predefined-CMap", "own-Writer+Reader", "Decode-ViewB", "DecodeExclusive-ViewB", "failing-Get"}
 
 type stressOp struct {
 	kind int
@@ -70,6 +74,9 @@ type stressFile struct {
 	bodies  map[pdf.Reference][]byte
 	// decode targets: name -> reference, as in Part A
 	target map[string]pdf.Reference
+	// cipher is "none", "RC4-40", "RC4-128", "AES-128" or "AES-256"
+	cipher   string
+	password string
 }
 
 func compressible(r *vt.Rand, n int) []byte {
@@ -83,12 +90,39 @@ func compressible(r *vt.Rand, n int) []byte {
 
 func buildStressFile(seed uint64) (*stressFile, error) {
 	r := vt.NewRand(seed)
-	v := pdf.V2_0
-	if r.Intn(4) == 0 {
-		v = pdf.V1_4 // no object streams, xref table
+	// The Writer selects the cipher from the version (see wprog.Program.Cipher):
+	// RC4-40 below 1.4, RC4-128 for 1.4/1.5, AES-128 for 1.6/1.7, AES-256 for
+	// 2.0.  RC4-40 is drawn twice as often: its per-object key derivation is
+	// the only one whose document key is shorter than the hash input buffer.
+	var opt *pdf.WriterOptions
+	var v pdf.Version
+	cipher := []string{"none", "RC4-40", "RC4-40", "RC4-128", "AES-128", "AES-256"}[r.Intn(6)]
+	switch cipher {
+	case "none":
+		v = pdf.V2_0
+		if r.Intn(4) == 0 {
+			v = pdf.V1_4 // no object streams, xref table
+		}
+	case "RC4-40":
+		v = []pdf.Version{pdf.V1_2, pdf.V1_3}[r.Intn(2)]
+	case "RC4-128":
+		v = []pdf.Version{pdf.V1_4, pdf.V1_5}[r.Intn(2)]
+	case "AES-128":
+		v = []pdf.Version{pdf.V1_6, pdf.V1_7}[r.Intn(2)]
+	case "AES-256":
+		v = pdf.V2_0
 	}
-	w, mf := memfile.NewPDFWriter(v, nil)
-	f := &stressFile{objs: map[pdf.Reference]pdf.Object{}, bodies: map[pdf.Reference][]byte{}, target: map[string]pdf.Reference{}}
+	password := ""
+	if cipher != "none" {
+		opt = &pdf.WriterOptions{OwnerPassword: "owner-c18"}
+		if r.Intn(2) == 0 {
+			password = "user-c18"
+			opt.UserPassword = password
+		}
+	}
+	w, mf := memfile.NewPDFWriter(v, opt)
+	f := &stressFile{objs: map[pdf.Reference]pdf.Object{}, bodies: map[pdf.Reference][]byte{}, target: map[string]pdf.Reference{},
+		cipher: cipher, password: password}
 
 	put := func(obj pdf.Object) (pdf.Reference, error) {
 		ref := w.Alloc()
@@ -125,14 +159,15 @@ func buildStressFile(seed uint64) (*stressFile, error) {
 	}
 
 	// further plain objects, some of them compressed into object streams
-	n := 4 + r.Intn(9)
+	n := 10 + r.Intn(15)
 	var crefs []pdf.Reference
 	var cobjs []pdf.Object
 	for i := 0; i < n; i++ {
 		var obj pdf.Object
 		switch r.Intn(4) {
 		case 0:
-			obj = pdf.Dict{"K": pdf.Integer(int64(r.Intn(1000))), "S": pdf.String(r.Bytes(r.Intn(40))), "R": f.target["S"]}
+			obj = pdf.Dict{"K": pdf.Integer(int64(r.Intn(1000))), "S": pdf.String(r.Bytes(r.Intn(40))), "R": f.target["S"],
+				"T": pdf.Array{pdf.String(r.Bytes(1 + r.Intn(16))), pdf.String(fmt.Sprintf("string %d of object %d", r.Intn(100), i))}}
 		case 1:
 			obj = pdf.Array{pdf.Integer(int64(i)), pdf.Name(fmt.Sprintf("N%d", r.Intn(50))), pdf.Real(0.5), pdf.Boolean(true)}
 		case 2:
@@ -203,7 +238,7 @@ func expandOps(c *StressCase, f *stressFile) [][]stressOp {
 	r := vt.NewRand(c.Seed ^ 0xC18)
 	var kinds []int
 	for k := 0; k < nOpKinds; k++ {
-		if c.Mix&(1<<k) != 0 {
+		if c.Mix&(1<<k) != 0 && k != opFailingGet {
 			kinds = append(kinds, k)
 		}
 	}
@@ -269,9 +304,13 @@ type stressRun struct {
 }
 
 func newStressRun(f *stressFile, g int) (*stressRun, error) {
-	rd, err := pdf.NewReader(bytes.NewReader(f.data), int64(len(f.data)), nil)
+	var ropt *pdf.ReaderOptions
+	if f.password != "" {
+		ropt = &pdf.ReaderOptions{Password: f.password}
+	}
+	rd, err := pdf.NewReader(bytes.NewReader(f.data), int64(len(f.data)), ropt)
 	if err != nil {
-		return nil, fmt.Errorf("cannot open the file the library wrote: %w", err)
+		return nil, fmt.Errorf("cannot open the %s file the library wrote: %w", f.cipher, err)
 	}
 	s := &stressRun{f: f, rd: rd, x: pdf.NewExtractor(rd)}
 	s.seen = make([]map[key][]any, g+1)
@@ -476,7 +515,20 @@ func (s *stressRun) do(g int, op stressOp) (res stressResult) {
 // interfere through package-level state.
 func ownFileRoundTrip(seed uint64) (uint64, error) {
 	r := vt.NewRand(seed)
-	w, mf := memfile.NewPDFWriter(pdf.V2_0, nil)
+	v, password := pdf.V2_0, ""
+	var wopt *pdf.WriterOptions
+	var ropt *pdf.ReaderOptions
+	switch r.Intn(4) {
+	case 0: // RC4-40
+		v, password = pdf.V1_3, "own"
+	case 1: // AES-128
+		v, password = pdf.V1_7, "own"
+	}
+	if password != "" {
+		wopt = &pdf.WriterOptions{UserPassword: password, OwnerPassword: "own-owner"}
+		ropt = &pdf.ReaderOptions{Password: password}
+	}
+	w, mf := memfile.NewPDFWriter(v, wopt)
 	type item struct {
 		ref  pdf.Reference
 		obj  pdf.Object
@@ -509,7 +561,7 @@ func ownFileRoundTrip(seed uint64) (uint64, error) {
 	if err := w.Close(); err != nil {
 		return 0, err
 	}
-	rd, err := pdf.NewReader(bytes.NewReader(mf.Data), int64(len(mf.Data)), nil)
+	rd, err := pdf.NewReader(bytes.NewReader(mf.Data), int64(len(mf.Data)), ropt)
 	if err != nil {
 		return 0, err
 	}
@@ -592,6 +644,19 @@ func checkStress(c *StressCase) error {
 	}
 	ops := expandOps(c, f)
 	G := c.Goroutines
+	c.cipher, c.sharedGets, c.errClasses = f.cipher, 0, nil
+	readers := 0
+	for g := range ops {
+		for _, op := range ops[g] {
+			if op.kind == opGet || op.kind == opStream {
+				readers++
+				break
+			}
+		}
+	}
+	if readers >= 2 {
+		c.sharedGets = readers
+	}
 
 	// sequential reference: the goroutines' lists one after the other
 	seq, err := newStressRun(f, G)
@@ -734,6 +799,16 @@ func checkStress(c *StressCase) error {
 			}
 		}
 	}
+	// --- failing calls: several goroutines with Readers of their own and a
+	// shared one read the hand-written bad file
+	if c.Mix&(1<<opFailingGet) != 0 {
+		ec := &ErrCase{Depth: []int{257, 300, 400}[c.Seed%3], Goroutines: min(G, 8), Seed: c.Seed}
+		err := checkErrors(ec)
+		c.errClasses = ec.classList()
+		if err != nil {
+			return fmt.Errorf("failing-Get phase (depth %d, %d goroutines): %v", ec.Depth, ec.Goroutines, err)
+		}
+	}
 	return nil
 }
 
@@ -753,7 +828,7 @@ var stressProp = &vt.Prop[StressCase]{
 			Seed:       rapid.Uint64().Draw(t, "seed"),
 			Goroutines: rapid.IntRange(8, 32).Draw(t, "goroutines"),
 			Ops:        rapid.IntRange(2, 12).Draw(t, "ops"),
-			Mix:        rapid.OneOf(rapid.Just((1<<nOpKinds)-1), rapid.Just(1<<opDecode|1<<opDecodeExclusive|1<<opPair|1<<opDecodeB|1<<opDecodeExclusiveB), rapid.Just(1<<opDecodeExclusive|1<<opDecodeExclusiveB), rapid.IntRange(1, (1<<nOpKinds)-1)).Draw(t, "mix"),
+			Mix:        rapid.OneOf(rapid.Just((1<<nOpKinds)-1), rapid.Just(1<<opDecode|1<<opDecodeExclusive|1<<opPair|1<<opDecodeB|1<<opDecodeExclusiveB), rapid.Just(1<<opDecodeExclusive|1<<opDecodeExclusiveB), rapid.Just(1<<opGet|1<<opStream), rapid.Just(1<<opGet|1<<opStream|1<<opFailingGet), rapid.IntRange(1, (1<<nOpKinds)-1)).Draw(t, "mix"),
 		}
 	},
 	Check: checkStress,
@@ -766,6 +841,18 @@ var stressProp = &vt.Prop[StressCase]{
 		}
 		if c.keysShared > 0 {
 			cl = append(cl, "key-used-by>=2-goroutines")
+		}
+		if c.cipher != "" {
+			cl = append(cl, "cipher:"+c.cipher)
+			if c.sharedGets >= 2 && c.cipher != "none" {
+				cl = append(cl, "encrypted-read-by>=2-goroutines")
+				if c.cipher == "RC4-40" {
+					cl = append(cl, "RC4-40-read-by>=2-goroutines")
+				}
+			}
+		}
+		for _, e := range c.errClasses {
+			cl = append(cl, "failing-Get:"+e)
 		}
 		return c.keysShared > 0, cl
 	},
